@@ -89,6 +89,9 @@ static DataSubset *bufr_allocate_datasubset(void)
    DataSubset  *subset;
 
    subset = (DataSubset *)malloc( sizeof(DataSubset ));
+#ifdef LIBECBUFR_VERIF
+   bufr_verif_live[BUFR_VK_SUBSET]++;
+#endif
    subset->dpbm     = NULL;
    subset->data     = NULL;
    return  subset;
@@ -128,6 +131,9 @@ BUFR_Dataset *bufr_create_dataset  ( BUFR_Template *tmplt )
       }
 
    dts = (BUFR_Dataset *)malloc(sizeof(BUFR_Dataset));
+#ifdef LIBECBUFR_VERIF
+   bufr_verif_live[BUFR_VK_DATASET]++;
+#endif
    dts->tmplte = bufr_copy_template( tmplt );
 
    bufr_init_sect1( &(dts->s1), tmplt->edition );
@@ -137,6 +143,9 @@ BUFR_Dataset *bufr_create_dataset  ( BUFR_Template *tmplt )
    if (dts->tmplte == NULL)
       {
       free( dts );
+#ifdef LIBECBUFR_VERIF
+   bufr_verif_live[BUFR_VK_DATASET]--;
+#endif
       dts = NULL;
       }
    else
@@ -178,6 +187,9 @@ void bufr_free_dataset ( BUFR_Dataset *dts )
       dts->s1.data = NULL;
       }
    free( dts );
+#ifdef LIBECBUFR_VERIF
+   bufr_verif_live[BUFR_VK_DATASET]--;
+#endif
    }
 
 /**
@@ -790,6 +802,9 @@ static void bufr_free_datasubset( DataSubset *subset )
       }
 
    free( subset );
+#ifdef LIBECBUFR_VERIF
+   bufr_verif_live[BUFR_VK_SUBSET]--;
+#endif
    }
 
 /**
